@@ -94,6 +94,10 @@ func hasIfaceField(t types.Type, depth int) bool {
 	}
 	switch u := t.Underlying().(type) {
 	case *types.Pointer:
+		// pointers to external structs (caches, databases, mutex-bearing services) are dependencies too
+		if _, opaque := opaqueSort(u.Elem()); opaque {
+			return true
+		}
 		return hasIfaceField(u.Elem(), depth+1)
 	case *types.Slice:
 		return hasIfaceField(u.Elem(), depth+1)
@@ -667,7 +671,7 @@ func (ex *Exec) replayValueFunction(ob *Obligation, workDir string) *replayResul
 	os.WriteFile(ovFile, ob2, 0o644)
 	outFile := filepath.Join(workDir, base+"_out.json")
 	os.Remove(outFile)
-	cmd := exec.Command("go", "test", "-overlay", ovFile, "-vet=off", "-count=1", "-timeout", "60s", "-run", "^TestGocvReplay$", ".")
+	cmd := exec.Command("go", "test", "-tags", "verif", "-overlay", ovFile, "-vet=off", "-count=1", "-timeout", "60s", "-run", "^TestGocvReplay$", ".")
 	cmd.Dir = pkgDir
 	cmd.Env = append(os.Environ(), "GOFLAGS=-mod=mod", "GOPROXY=off", "GOSUMDB=off", "GOTOOLCHAIN=local", "GOCV_REPLAY_OUT="+outFile)
 	done := make(chan struct{})
@@ -704,8 +708,8 @@ func (ex *Exec) replayValueFunction(ob *Obligation, workDir string) *replayResul
 		return res
 	}
 	if res.Panic != "" {
-		res.Reproduced = true
-		res.Note = "real code panicked: " + res.Panic
+		// a panic is not the violation of a functional clause; it is reported, not counted as a reproduction
+		res.Note = "real code panicked on the model input (inconclusive for this clause): " + res.Panic
 		return res
 	}
 	for i, p := range fn.Params {
